@@ -134,7 +134,10 @@ structure QSpec where
   trainable : Nat
   /-- arguments that `get_config` writes as `self.<arg>.tolist() if self.<arg> is not None else None`:
       the call raises AttributeError unless the live value is a numpy array / numpy scalar
-      (quantized_bits.post_training_scale; observed on live instances by the static tie) -/
+      (observed on live instances by the static tie).  Empty for every class since
+      `quantized_bits.get_config` writes `np.asarray(self.post_training_scale).tolist()`
+      (finding C13-qbits-post_training_scale-not-numpy, repaired); kept so that such a defect is
+      noticed (static tie) and can be mirrored -/
   tolist : List String := []
 deriving Repr
 
@@ -165,10 +168,11 @@ def qFromConfig (s : QSpec) (cfg : Cfg) : Except Err QObj :=
   else .error .typeError
 
 /-- does `<quantizer>.get_config()` raise?  `.tolist()` on an argument that is neither None nor a
-    numpy value (`quantized_bits(alpha="auto_po2", post_training_scale=[0.5])` or `=0.5`: the
-    constructor accepts it — `np.array(post_training_scale)` — and `get_config` then raises
-    AttributeError).  `from_config` wraps the argument in `np.array`, so a reloaded quantizer has
-    `native = []`. -/
+    numpy value.  (Until the repair of C13-qbits-post_training_scale-not-numpy this was
+    `quantized_bits(alpha="auto_po2", post_training_scale=[0.5])` or `=0.5`: the constructor accepts
+    it — `np.array(post_training_scale)` — and `get_config` raised AttributeError; now no class of
+    the tables has a `tolist` argument.)  `from_config` wraps the argument in `np.array`, so a
+    reloaded quantizer has `native = []`. -/
 def qGetConfigRaises (s : QSpec) (q : QObj) : Bool :=
   s.tolist.any fun k =>
     q.native.contains k &&
